@@ -217,7 +217,7 @@ func TestVerifReplayC14(t *testing.T) {
 	got := strings.Fields(string(raw))
 	fmt.Printf("REPLAY: expected %v\nREPLAY: observed %v errs=%v\n", exp, got, errs)
 	// the run part in order; the down commands as a set at the end
-	bad := len(got) != len(exp)+len(expDowns) || strings.Join(got[:min(len(exp), len(got))], " ") != strings.Join(exp, " ")
+	bad := len(got) != len(exp)+len(expDowns) || strings.Join(got[:minInt(len(exp), len(got))], " ") != strings.Join(exp, " ")
 	if !bad {
 		tail := append([]string(nil), got[len(exp):]...)
 		sort.Strings(tail)
@@ -235,4 +235,11 @@ func TestVerifReplayC14(t *testing.T) {
 	} else {
 		fmt.Println("REPLAY: not-reproduced (real code satisfies the property on this input)")
 	}
+}
+
+func minInt(a, b int) int {
+	if a < b {
+		return a
+	}
+	return b
 }
